@@ -17,7 +17,10 @@ Import ListNotations.
 Local Open Scope Z_scope.
 
 Definition ZSTD_dfast : Z := 2.
+Definition ZSTD_btopt : Z := 7.
 Definition ZSTD_btultra : Z := 8.
+Definition ZSTD_btultra2 : Z := 9.
+Definition PREDEF_THRESHOLD : Z := 8.      (* ZSTD_PREDEF_THRESHOLD, a macro local to zstd_opt.c *)
 Definition LDM_MAX_CHUNK : Z := 1048576.   (* kMaxChunkSize, a local constant of ZSTD_ldm_generateSequences *)
 (* ZSTD_buildSeqStore(): blocks below MIN_CBLOCK_SIZE+ZSTD_blockHeaderSize+1+1 bytes are not searched,
    so ZSTD_ldm_generateSequences is not called for them *)
@@ -27,7 +30,8 @@ Record hstate : Type := mkH {
   h_ms : matchState;
   h_ldm : option ldmState;    (* Some iff appliedParams.ldmParams.enableLdm == ZSTD_ps_enable *)
   h_params : cparams;         (* appliedParams *)
-  h_forceNC : bool            (* ms->forceNonContiguous *)
+  h_forceNC : bool;           (* ms->forceNonContiguous *)
+  h_optFirst : bool           (* ms->opt.litLengthSum == 0 : no block of this frame went through the optimal parser yet *)
 }.
 
 Definition zero_table (t : list Z) : list Z := map (fun _ => 0) t.
@@ -140,6 +144,29 @@ Fixpoint ldm_chunks (fuel : nat) (frequently : bool) (s : ldmState) (windowLog c
       else s
   end.
 
+(* ZSTD_initStats_ultra(): after its first pass over the first block of a frame, btultra2 forgets that
+   pass by moving the whole referential srcSize bytes down (zstd_opt.c) *)
+Definition initStats_ultra (ms : matchState) (srcSize : Z) : matchState :=
+  let w := ms_window ms in
+  let dl := u32 (dictLimit w + u32 srcSize) in
+  mkMS (mkWindow (nextSrc w) (base w - srcSize) (dictBase w) dl dl (nbOvf w))
+       (ms_loadedDictEnd ms) dl (ms_dms ms) (ms_hashLog3 ms) (ms_dds ms) (ms_tables ms).
+
+(* what ZSTD_buildSeqStore + the block compressor do to the index state of one block, apart from table
+   writes: nothing for blocks below TINY_BLOCK; the btultra2 first pass (ZSTD_compressBlock_btultra2, selected
+   only in ZSTD_noDict mode); any optimal-parser block makes opt.litLengthSum non-zero.
+   Returns the match state and the new value of (opt.litLengthSum == 0). *)
+Definition block_search_effect (p : cparams) (ms : matchState) (optFirst : bool) (ip bs : Z) : matchState * bool :=
+  if bs <? TINY_BLOCK then (ms, optFirst)
+  else
+    let w := ms_window ms in
+    let noDictMode := negb (window_hasExtDict w) && negb (ms_dms ms) in
+    let ms' :=
+      if (p_strategy p =? ZSTD_btultra2) && noDictMode && optFirst
+         && (dictLimit w =? lowLimit w) && (idx w ip =? dictLimit w) && (bs >? PREDEF_THRESHOLD)
+      then initStats_ultra ms bs else ms in
+    (ms', if ZSTD_btopt <=? p_strategy p then false else optFirst).
+
 (* one block of ZSTD_compress_frameChunk (index part) *)
 Definition frame_block (frequently : bool) (h : hstate) (ip bs : Z) : hstate :=
   let p := h_params h in
@@ -157,7 +184,8 @@ Definition frame_block (frequently : bool) (h : hstate) (ip bs : Z) : hstate :=
                 else Some (ldm_chunks (Z.to_nat (bs / LDM_MAX_CHUNK) + 1) frequently l (p_windowLog p) ip (ip + bs))
     | None => None
     end in
-  mkH ms4 ldm' p (h_forceNC h).
+  let '(ms5, first') := block_search_effect p ms4 (h_optFirst h) ip bs in
+  mkH ms5 ldm' p (h_forceNC h) first'.
 
 Fixpoint frame_blocks (frequently : bool) (h : hstate) (ip : Z) (blocks : list Z) : hstate :=
   match blocks with
@@ -178,7 +206,7 @@ Definition continue_update (h : hstate) (src srcSize : Z) : hstate :=
     | Some l => Some (mkLdm (fst (window_update (ldm_window l) src srcSize false)) (ldm_loadedDictEnd l) (ldm_table l))
     | None => None
     end in
-  mkH ms1 ldm1 (h_params h) (if contiguous then h_forceNC h else false).
+  mkH ms1 ldm1 (h_params h) (if contiguous then h_forceNC h else false) (h_optFirst h).
 
 Definition step (frequently : bool) (h : hstate) (o : op) : hstate :=
   match o with
@@ -191,15 +219,15 @@ Definition step (frequently : bool) (h : hstate) (o : op) : hstate :=
                       (match h_ldm h with Some l => zero_table (ldm_table l) | None => [] end))
         else None in
       match dict with
-      | None => mkH ms1 ldm1 p (h_forceNC h)
+      | None => mkH ms1 ldm1 p (h_forceNC h) true
       | Some d =>
           let '(ms2, ldm2, fnc, _) :=
             loadDictionaryContent frequently ms1 ldm1 p (d_src d) (d_size d)
                                   (d_forceWindow d) (d_detRefPrefix d) false in
-          mkH ms2 ldm2 p fnc
+          mkH ms2 ldm2 p fnc true
       end
   | OpAttach cdictEnd cdictDictLimit =>
-      mkH (attach_cdict (h_ms h) cdictEnd cdictDictLimit) (h_ldm h) (h_params h) (h_forceNC h)
+      mkH (attach_cdict (h_ms h) cdictEnd cdictDictLimit) (h_ldm h) (h_params h) (h_forceNC h) (h_optFirst h)
   | OpContinue src blocks =>
       let srcSize := sumZ blocks in
       if srcSize =? 0 then h
@@ -209,20 +237,21 @@ Definition step (frequently : bool) (h : hstate) (o : op) : hstate :=
       else
         let h1 := continue_update h src size in
         let '(ms2, _) := overflowCorrectIfNeeded frequently (h_ms h1) (h_params h1) src (src + size) in
-        mkH ms2 (h_ldm h1) (h_params h1) (h_forceNC h1)
+        let '(ms3, first') := block_search_effect (h_params h1) ms2 (h_optFirst h1) src size in
+        mkH ms3 (h_ldm h1) (h_params h1) (h_forceNC h1) first'
   | OpFinder ntu t =>
       let ms := h_ms h in
       mkH (mkMS (ms_window ms) (ms_loadedDictEnd ms) ntu (ms_dms ms) (ms_hashLog3 ms) (ms_dds ms) t)
-          (h_ldm h) (h_params h) (h_forceNC h)
+          (h_ldm h) (h_params h) (h_forceNC h) (h_optFirst h)
   | OpLdmFinder t =>
       match h_ldm h with
-      | Some l => mkH (h_ms h) (Some (mkLdm (ldm_window l) (ldm_loadedDictEnd l) t)) (h_params h) (h_forceNC h)
+      | Some l => mkH (h_ms h) (Some (mkLdm (ldm_window l) (ldm_loadedDictEnd l) t)) (h_params h) (h_forceNC h) (h_optFirst h)
       | None => h
       end
   | OpCopyCDict w lde ntu =>
       let ms := h_ms h in
       mkH (mkMS w lde ntu (ms_dms ms) (ms_hashLog3 ms) (ms_dds ms) (ms_tables ms))
-          (h_ldm h) (h_params h) (h_forceNC h)
+          (h_ldm h) (h_params h) (h_forceNC h) (h_optFirst h)
   end.
 
 Definition run (frequently : bool) (h : hstate) (ops : list op) : hstate :=
@@ -231,7 +260,7 @@ Definition run (frequently : bool) (h : hstate) (ops : list op) : hstate :=
 (* a never-used context: ZSTD_createCCtx() zeroes the struct; the first ZSTD_resetCCtx_internal
    sees !initialized, i.e. [forced = true], and re-initialises the window *)
 Definition h_init (p : cparams) : hstate :=
-  mkH (mkMS (mkWindow 0 0 0 0 0 0) 0 0 false 0 false (mkTables [] [] [])) None p false.
+  mkH (mkMS (mkWindow 0 0 0 0 0 0) 0 0 false 0 false (mkTables [] [] [])) None p false true.
 
 (* ------------------------------------------------------------------------------------------
    Executable "no index wrapped" observer: true iff every U32 index the code computes in this
